@@ -259,7 +259,25 @@ func main() {
 			continue
 		}
 		if r.timeout {
-			inconclusive = append(inconclusive, fmt.Sprintf("shard %d timed out after %ds", r.shard, tc.Timeout))
+			// the shard was killed before it wrote its statistics; violations it had already recorded (with a
+			// replay file each) are in its journal and stand on their own
+			journaled := 0
+			if jb, err := os.ReadFile(filepath.Join(work, fmt.Sprintf("violations.%d.jsonl", r.shard))); err == nil {
+				for _, line := range bytes.Split(jb, []byte("\n")) {
+					var jv struct {
+						Sig    string `json:"sig"`
+						Detail string `json:"detail"`
+						Replay string `json:"replay"`
+					}
+					if len(line) > 0 && json.Unmarshal(line, &jv) == nil && jv.Sig != "" && jv.Replay != "" {
+						viols = append(viols, viol{jv.Sig, jv.Detail, jv.Replay})
+						journaled++
+					}
+				}
+			}
+			if journaled == 0 {
+				inconclusive = append(inconclusive, fmt.Sprintf("shard %d timed out after %ds", r.shard, tc.Timeout))
+			}
 			continue
 		}
 		// a failing process must be explained by a recorded violation; otherwise
